@@ -3,7 +3,6 @@ package checks
 import (
 	"context"
 	"strconv"
-	"strings"
 	"unicode/utf8"
 
 	"github.com/ddddddO/gtree"
@@ -165,7 +164,7 @@ func evalC04(c *Ctx, cs *Case) {
 			for _, short := range []bool{false, true} {
 				fw := mon.NewRecWriter()
 				fw.FailAt, fw.Short = 0, short
-				_ = Guard(func() error { return gtree.OutputFromMarkdown(fw, strings.NewReader(doc), encOpt[enc]) })
+				_ = Guard(func() error { return gtree.OutputFromMarkdown(fw, MDReader(doc), encOpt[enc]) })
 				fr := mon.NewRecWriter()
 				fr.FailAt, fr.Short = 0, short
 				g0 := BuildRoot(f[0])
@@ -179,7 +178,7 @@ func evalC04(c *Ctx, cs *Case) {
 			check("OutputFromMarkdown+NoIter", enc, no.Out, no, merged)
 			// the deprecated aliases with the same option
 			aw := mon.NewRecWriter()
-			ao := Guard(func() error { return gtree.Output(aw, strings.NewReader(doc), encOpt[enc]) })
+			ao := Guard(func() error { return gtree.Output(aw, MDReader(doc), encOpt[enc]) })
 			check("Output(alias)", enc, aw.Bytes(), ao, merged)
 			pw := mon.NewRecWriter()
 			pr := BuildRoot(f[0])
